@@ -1,0 +1,48 @@
+//go:build verif
+
+// Contracts for property C20 (structural slice): polyline subsampling keeps the first vertex, strictly
+// increasing indices, no equal neighbours, and makes progress; every snapper constructor establishes
+// "snap radius = minimum snap radius of its level / exponent". The achieved tolerances themselves are
+// numerical and are not decided. Comment-only; build tag verif.
+
+package s2
+
+//@ import "github.com/golang/geo/s1"
+
+//@ property C20
+
+//@ func findEndVertex(p Polyline, tolerance s1.Angle, index int) int
+//@   assumed "numerical (distances, wedge angles): only the index contract is used; progress relies on the first candidate never being rejected (lastDistance starts at exactly 0, the full wedge contains every finite angle)"
+//@   requires 0 <= index && index+1 < len(p)
+//@   ensures index < result && result < len(p)
+
+//@ func (p *Polyline) SubsampleVertices(tolerance s1.Angle) []int
+//@   fpcmp
+//@   requires p != nil
+//@   ensures [empty] len(*p) == 0 ==> len(result) == 0
+//@   ensures [first] len(*p) >= 1 ==> len(result) >= 1 && result[0] == 0
+//@   ensures [increasing] forall k int :: 0 < k && k < len(result) ==> result[k-1] < result[k]
+//@   ensures [in-range] forall k int :: 0 <= k && k < len(result) ==> 0 <= result[k] && result[k] < len(*p)
+//@   ensures [no-equal-neighbours] forall k int :: 0 < k && k < len(result) ==> (*p)[result[k-1]] != (*p)[result[k]]
+//@   loop 1 (index int, result []int): invariant [idx] 0 <= index && index < len(*p) && len(result) >= 1 && result[0] == 0
+//@   loop 1: invariant [last] result[len(result)-1] <= index && (result[len(result)-1] == index || (*p)[result[len(result)-1]] == (*p)[index])
+//@   loop 1: invariant [increasing] forall k int :: 0 < k && k < len(result) ==> result[k-1] < result[k]
+//@   loop 1: invariant [in-range] forall k int :: 0 <= k && k < len(result) ==> 0 <= result[k] && result[k] < len(*p)
+//@   loop 1: invariant [no-equal-neighbours] forall k int :: 0 < k && k < len(result) ==> (*p)[result[k-1]] != (*p)[result[k]]
+//@   loop 1: decreases len(*p) - index
+
+// ---- snappers: the declared snap radius is the minimum radius of the declared grid
+
+//@ func NewCellIDSnapper() CellIDSnapper
+//@   ensures [level] result.level == MaxLevel
+//@   ensures [radius] vcSame(result.snapRadius, result.minSnapRadiusForLevel(result.level))
+
+//@ func CellIDSnapperForLevel(level int) CellIDSnapper
+//@   requires 0 <= level && level <= MaxLevel
+//@   ensures [level] result.level == level
+//@   ensures [radius] vcSame(result.snapRadius, result.minSnapRadiusForLevel(result.level))
+
+//@ func NewIntLatLngSnapper(exponent int) IntLatLngSnapper
+//@   requires 0 <= exponent && exponent <= 10
+//@   ensures [exponent] result.exponent == exponent
+//@   ensures [radius] vcSame(result.snapRadius, result.minSnapRadiusForExponent(result.exponent))
